@@ -511,6 +511,11 @@ pub fn c10(rep: &mut Rep, seed: u64) {
         "1,CONSUMO,CAL,ELECTRICIDAD,100,50\n1,CONSUMO,ACS,ELECTRICIDAD,20,20\n1,SALIDA,CAL,450,200\n1,SALIDA,ACS,80,80\n1,SALIDA,CAL,150,100\n1,AUX,40,20",
         "1,CONSUMO,ACS,ELECTRICIDAD,100\n1,CONSUMO,ACS,EAMBIENTE,150\n2,CONSUMO,ACS,TERMOSOLAR,60",
     ];
+    // every figure of the serialized result (per-step series included), by path
+    let all = |t: &str| -> Option<crate::leaf::Leaves> {
+        let c: Components = t.parse().ok()?;
+        energy_performance(&c, &crate::factors("PENINSULA"), 0.5, 2.0, true).ok().map(|ep| crate::leaf::results(&ep, false))
+    };
     let sig = |t: &str| -> Result<Vec<f32>, String> {
         let c: Components = t.parse().map_err(|e| format!("{}", e))?;
         let w = crate::factors("PENINSULA");
@@ -526,6 +531,7 @@ pub fn c10(rep: &mut Rep, seed: u64) {
     };
     for base in bases {
         let want = match sig(base) { Ok(s) => s, Err(e) => { rep.fail("C10.base", base, e); continue; } };
+        let want_all = all(base);
         let lines: Vec<&str> = base.lines().collect();
         let mut variants: Vec<(String, String)> = vec![];
         for _ in 0..6 { let mut l = lines.clone(); for i in (1..l.len()).rev() { let j = (rng.next() % (i as u64 + 1)) as usize; l.swap(i, j); } variants.push(("reordered lines".into(), l.join("\n"))); }
@@ -555,13 +561,15 @@ pub fn c10(rep: &mut Rep, seed: u64) {
             rep.evals += 1;
             rep.nontrivial += 1;
             match sig(&t) {
-                Ok(s) => if let Some(p) = s.iter().zip(&want).position(|(x, y)| !eq(*x, *y)) { rep.fail("C10.layout", &t, format!("{}: result #{} = {} instead of {}", name, p, s[p], want[p])); },
+                Ok(s) => if let Some(p) = s.iter().zip(&want).position(|(x, y)| !eq(*x, *y)) { rep.fail("C10.layout", &t, format!("{}: result #{} = {} instead of {}", name, p, s[p], want[p])); }
+                    else if let (Some(a), Some(b)) = (&want_all, all(&t)) { if let Some(d) = crate::leaf::diff(a, &b, 1.0) { rep.fail("C10.layout", &t, format!("{}: a figure of the result differs: {}", name, d)); } },
                 Err(e) => rep.fail("C10.layout", &t, format!("{}: {}", name, e)),
             }
         }
         for _ in 0..60 {
             rep.evals += 1;
-            match sig(base) { Ok(s) => if s.iter().zip(&want).any(|(x, y)| !eq(*x, *y)) { rep.fail("C10.repeatable", base, "repeating the evaluation gives another result".into()); }, Err(e) => rep.fail("C10.repeatable", base, e) }
+            match sig(base) { Ok(s) => if s.iter().zip(&want).any(|(x, y)| !eq(*x, *y)) { rep.fail("C10.repeatable", base, "repeating the evaluation gives another result".into()); }
+                else if let (Some(a), Some(b)) = (&want_all, all(base)) { if let Some(d) = crate::leaf::diff(a, &b, 1.0) { rep.fail("C10.repeatable", base, format!("repeating the evaluation gives another result: {}", d)); } }, Err(e) => rep.fail("C10.repeatable", base, e) }
         }
         if rep.samples.len() < 3 { rep.samples.push(json!({"components": base})); }
     }
